@@ -8,6 +8,33 @@ IMPORTS = 'From Gen Require Import enums core decoders.'
 SPEC_IMPORTS = 'From Coq Require Import ZArith List.'
 
 
+def class_directed_words(rng, tier):
+    """for every concrete encoding class reached by random sampling, a few words of that class with their register
+    fields forced to SP / LR / PC: the operand corners where UNPREDICTABLE guards and assertions live"""
+    import framework
+    nsample = 30000 if tier == 'quick' else 300000
+    per_class = 2 if tier == 'quick' else 8
+    res = []
+    for module, gen, kind in (('arm_instruction_set', stepgen.random_arm_word, 'arm'),
+                              ('thumb_instruction_set_encoding_32_bit', stepgen.random_thumb32, 't32')):
+        words = [gen(rng) for _ in range(nsample)]
+        codes = framework.run_impl([{'kind': 'classify', 'module': module, 'words': words}], 'c18_classify_' + kind)[0]
+        byclass = {}
+        for w, c in zip(words, codes):
+            if c >= 0 and len(byclass.setdefault(c, [])) < per_class:
+                byclass[c].append(w)
+        for c, ws in sorted(byclass.items()):
+            for w in ws:
+                if kind == 'arm' and (w >> 28) != 0xF:
+                    w = (w & 0x0FFFFFFF) | 0xE0000000      # condition AL: the instruction body must run
+                res.append((kind, w))
+                for pos in (0, 8, 12, 16):
+                    for r in (12, 13, 14, 15):
+                        if True:
+                            res.append((kind, (w & ~(0xF << pos)) | (r << pos)))
+    return res
+
+
 def cases(rng, tier):
     t = statelib.load_index(C.GEN)['tables']
     out = []
@@ -27,6 +54,15 @@ def cases(rng, tier):
             st['sys'][icpsr] |= ((it >> 2) << 10) | ((it & 3) << 25)
         stepgen.put_instr(st, w, 16)
         add(st, 'thumb16')
+    for kind, w in class_directed_words(rng, tier):
+        st = stepgen.random_state(rng, t, thumb=(kind != 'arm'), mpu=False)
+        for i in range(33):        # addresses inside mapped memory so that transfers complete and reach write-back
+            if rng.random() < 0.7:
+                st['R'][i] = 0x1000 + 8 * rng.randrange(0, 24)
+        if kind == 't32':
+            st['_thumb32'] = True
+        stepgen.put_instr(st, w, 32)
+        add(st, 'directed_' + kind)
     for _ in range(n32):
         st = stepgen.random_state(rng, t, thumb=False, mpu=rng.random() < 0.2)
         stepgen.put_instr(st, stepgen.random_arm_word(rng), 32)
